@@ -179,6 +179,24 @@ def check_readspec(ctx, repo):
             ctx.check('C16.LOCKSTEP', src(v.args[0]) == src(t) and src(v.args[1]) != src(t), f, st,
                       'accumulate: %s <- spec_append(%s, %s)' % (src(t)[:40], src(v.args[0])[:40], src(v.args[1])[:20]),
                       msg='spec_append is not called with the accumulated block first: %s' % src(st)[:100], construct='accumulate ' + src(st)[:100])
+    # ---- REQ-VECTORS: the request vectors are built by POSITION (whole-array expressions, slices), never by the value of another
+    # request vector: `mjdvec[platevec == p] = m` gives every request of plate p the same MJD
+    nvec = 0
+    for st in walk_local(f.node):
+        if isinstance(st, (ast.Assign, ast.AugAssign)):
+            for t in (st.targets if isinstance(st, ast.Assign) else [st.target]):
+                if isinstance(t, ast.Subscript) and isinstance(t.value, ast.Name) and t.value.id in ('platevec', 'mjdvec', 'fibervec'):
+                    nvec += 1
+                    idx = t.slice
+                    if isinstance(idx, ast.Name):
+                        d = fa.deep(idx)
+                        idx = d if d is not None else idx
+                    by_value = any(isinstance(c, ast.Compare) and any(isinstance(x, ast.Name) and x.id in ('platevec', 'mjdvec', 'fibervec', 'plate', 'mjd', 'fiber')
+                                                                      for x in ast.walk(c)) for c in ast.walk(idx))
+                    ctx.check('C16.LOCKSTEP', not by_value, f, st, 'request vector %s is filled by position (%s)' % (t.value.id, src(t.slice)[:30]),
+                              msg='%s is filled through `%s`, i.e. by the VALUE of another request vector: two requests for one plate with different '
+                                  'MJDs (or fibres) get the same entry, and the spectra returned for them come from the wrong file'
+                                  % (t.value.id, src(t)[:50]), construct='request vector filled by value: ' + src(st)[:70])
     # ---- ROWSEL
     for n in walk_local(f.node):
         if isinstance(n, ast.Subscript) and isinstance(n.value, ast.Attribute) and n.value.attr == 'data':
